@@ -99,7 +99,7 @@ def run(chk, replay=None):
     if r.violation != "ColdRacePossible":
         chk.notes.append("the cold-start race witness was not found: the race detector of the model may be vacuous")
     # 2. recorded executions
-    runs = [("warm", 16, 120 if quick else 800, chk.seed), ("cold", 16, 30 if quick else 200, chk.seed),
+    runs = [("warm", 16, 400 if quick else 2000, chk.seed), ("cold", 16, 60 if quick else 300, chk.seed),
             ("cold", 8, 10, chk.seed + 1), ("warm", 4, 60, chk.seed + 2)]
     if not quick:
         runs += [("cold", 16, 60, chk.seed + 7 * i) for i in range(1, 6)] + [("warm", 16, 400, chk.seed + 3)]
@@ -141,7 +141,7 @@ def run(chk, replay=None):
     try:
         tdir = build("tsan", targets=["conc_drive"])
         env = dict(os.environ, TSAN_OPTIONS="halt_on_error=0 report_signal_unsafe=0 exitcode=0")
-        raw, err, stderr = run_driver(tdir, "warm", 8, 40 if quick else 300, chk.seed, "tsan", env=env, timeout=900)
+        raw, err, stderr = run_driver(tdir, "warm", 8, 200 if quick else 1000, chk.seed, "tsan", env=env, timeout=1800)
         races = re.findall(r"WARNING: ThreadSanitizer: data race.*?(?=\n\n|\Z)", stderr, flags=re.S)
         chk.cov["tsan_observer"] = {"ran": raw is not None, "race_reports": len(races)}
         chk.case(("tsan", "warm", 8))
